@@ -577,10 +577,10 @@ pub fn write_ops<T: Spec>(ops: &[WOp]) -> Result<Vec<u8>, (usize, WErr)> {
 }
 
 // ---------------------------------------------------------------------------------------------
-// memory safety of the harness itself: a declared size between 64 MiB and the configured limit
+// memory safety of the harness itself: a declared size between 4 MiB and the configured limit
 // makes the iterator legitimately allocate that much (documented); 16 workers cannot afford it.
 
-pub const SAFE_ALLOC: u64 = 64 << 20;
+pub const SAFE_ALLOC: u64 = 4 << 20;
 
 /// largest vint value readable at ANY offset of the input that does not exceed `limit`
 /// (every size field the iterator can ever parse starts at some input offset, so this is a sound bound)
